@@ -7,7 +7,9 @@ floor+2 for dn = 87, nn = 173 and a quotient too large by about B^86 one recursi
 Theorems (kernel-checked on the executable model): dcDivappr_floor2_small / dcDivappr_floor2 / dcDivappr_far_off (model of the pinned C,
 parameter rep = false) and dcDivappr_repaired_examples (model of the repaired C, rep = true; findings/dc_divappr_q_fix.diff).  The op
 carries `rep` (read from the source under test: `while` at :105 and the sign test in the rare case) so that the model mirrors whichever
-C is compiled.  NOT proved: the positive contract of the repaired C for all sizes (differential only: 0/+1 on every generated input).
+C is compiled.  PROVED for the repaired C (rep = 1, every size, every T >= 6, C >= 3): dc_divappr_q_contract (floor or floor+1, qh <= 1, every
+callee inside its domain, the `while` at :116 runs at most once per call), dc_divappr_q_remainder / sb_divappr_q_remainder (the three limbs a
+call leaves are its non-negative truncated remainder), dc_divappr_q_ok (limb vectors), dc_div_q_exact (mpn_dc_div_q without callee hypothesis).
 
 Branches of dc_divappr_q.c and how the generator reaches them (recipes from the proof: the routine subtracts d_i*q_j only for
 i + j >= n - 1, so divisors with all-ones low limbs make the neglected part largest):
@@ -27,8 +29,9 @@ from genlib import *
 LEAN_MODULES = ["MpirProofs.Props.C02_dcappr"]
 THEOREMS = ["Mpir.DcDivappr." + t for t in """
 dcDivappr_floor2_small dcDivappr_floor2 dcDivappr_far_off dcDivappr_repaired_examples
+dc_divappr_q_contract dc_divappr_q_remainder sb_divappr_q_remainder dc_divappr_q_ok dc_div_q_exact
 """.split()]
-PINS = [("mpn/generic/dc_divappr_q.c", None), ("mpn/generic/sb_divappr_q.c", "__divappr_helper")]
+PINS = [("mpn/generic/dc_divappr_q.c", None), ("mpn/generic/sb_divappr_q.c", None), ("mpn/generic/dc_div_q.c", None)]
 TRUSTED = ["hand-written value-level model lean/Mpir/Model/DcDivappr.lean of mpn_dc_divappr_q (limb areas as naturals with explicit "
            "limb counts; the footprint 'a call writes only np[dn-2 ..] of its window and leaves the truncated remainder in np[dn-2 .. dn]' "
            "is part of the model; tied by correspondence on every run: quotient, those three limbs and qh compared verbatim)",
